@@ -5,7 +5,7 @@ from collections import Counter
 from fractions import Fraction
 
 from ..extract import AnalysisError
-from ..facts import walk, strip, callee, lit_value, access_path
+from ..facts import walk, strip, callee, lit_value, access_path, plain_local
 from ..symx import SymEval, Poly, Unsupported, app, var, num, single_atom, atom_fn, atom_args, contains_atom, vkey
 from ..trace import Tracer
 from ..profiles import profile, diff, fmt
@@ -194,18 +194,24 @@ def run(ck, F, tier):
                                 l, r = strip(c["l"]), strip(c["r"])
                                 if l.get("k") == "field" and r.get("k") == "field":
                                     preds.append((c["op"], l["f"], r["f"], access_path(l)[0].split("#")[0], access_path(r)[0].split("#")[0]))
-                ok2 = len(preds) == 1 and preds[0][0] == "Ne" and preds[0][1] == preds[0][2] == fld and preds[0][3] != preds[0][4] and "exclude" in preds[0][3] + preds[0][4]
+                ok2 = len(preds) == 1 and preds[0][0] == "Ne" and preds[0][1] == preds[0][2] == fld and preds[0][3] != preds[0][4]
                 ck.inst("K2", "%s:%s" % (ty, tag), ok2, body.span, "inner reduction keeps msg with msg.%s != exclude_msg.%s: %s" % (fld, fld, preds))
             elif fam == "phif":
                 subs = [n for n in walk(body.value) if n.get("k") == "call" and (callee(n) or "").endswith("::phi") and strip(n["args"][0]).get("k") == "bin"
                         and strip(n["args"][0])["op"] == "Sub"]
-                own = len(subs) == 1 and (access_path(strip(subs[0]["args"][0])["l"]) or ("",))[0].startswith("sum#") and (access_path(strip(subs[0]["args"][0])["r"]) or ("",))[0].startswith("phi#")
+                acc = {plain_local(a["l"]) for a in walk(body.value) if a.get("k") == "assignop" and a["op"].startswith("Add")}
+                zipped = {x["name"] for fl in walk(body.value) if fl.get("k") == "for" and any(y.get("k") == "field" and y["f"] == "phis" for y in walk(fl["iter"]))
+                          for x in walk(fl["pat"]) if x.get("k") == "bind"}
+                own = len(subs) == 1 and (access_path(strip(subs[0]["args"][0])["l"]) or ("",))[0] in acc and (access_path(strip(subs[0]["args"][0])["r"]) or ("",))[0] in zipped
                 sgn = [n for n in walk(body.value) if n.get("k") == "if" and strip(n["c"]).get("k") == "bin" and strip(n["c"])["op"] == "Lt" and lit_value(strip(n["c"])["r"]) == 0.0
                        and strip(n["t"]).get("k") in ("bin", "block") and "BitXor" in repr([x.get("op") for x in walk(n["t"])]) and "e" in n]
                 ck.inst("K2", "%s:%s" % (ty, tag), own and len(sgn) == 1, body.span, "per destination: magnitude phi(sum - own phi) (%s); own sign removed by sign ^ 1 when x < 0 (%d site)" % (own, len(sgn)))
             else:
+                def usize_local(x):
+                    x = strip(x)
+                    return x.get("k") == "path" and x.get("res") == "local" and x.get("ty", "").lstrip("&") == "usize"
                 guards = [n for n in walk(body.value) if n.get("k") == "if" and strip(n["c"]).get("k") == "bin" and strip(n["c"])["op"] == "Ne"
-                          and {(access_path(strip(n["c"])["l"]) or ("?",))[0].split("#")[0], (access_path(strip(n["c"])["r"]) or ("?",))[0].split("#")[0]} == {"j", "argmin"}]
+                          and usize_local(strip(n["c"])["l"]) and usize_local(strip(n["c"])["r"]) and strip(strip(n["c"])["l"])["name"] != strip(strip(n["c"])["r"])["name"]]
                 amin = [n for n in walk(body.value) if n.get("k") == "mcall" and n["m"] in ("min_by", "min_by_key")]
                 abs_ok = len(amin) == 1 and any(x.get("k") == "mcall" and x["m"] == "abs" for x in walk(amin[0]["args"][0]))
                 # flooding also uses `j != argmin` in the filter_map that enumerates the remaining destinations
